@@ -7,6 +7,7 @@ import (
 	"strings"
 	"sync"
 
+	jsoniter "github.com/json-iterator/go"
 	"github.com/spf13/afero"
 	ammo "github.com/yandex/pandora/components/providers/grpc"
 	"github.com/yandex/pandora/core"
@@ -37,6 +38,17 @@ var _ io.Reader = (*hFile)(nil)
 // harness' line format {"tag":"x"} (anything else is a syntax error); the native replay parses the
 // same lines with the real library.
 func vStub_github_com_json_iterator_go_Unmarshal(data []byte, v interface{}) error {
+	return hUnmarshal(data, v)
+}
+
+// a configuration of the library frozen by the provider (jsoniter.Config{...}.Froze()): the same stub
+type hAPI struct{ jsoniter.API }
+
+func (hAPI) Unmarshal(data []byte, v interface{}) error { return hUnmarshal(data, v) }
+
+func vStub__github_com_json_iterator_go_Config__Froze(cfg jsoniter.Config) jsoniter.API { return hAPI{} }
+
+func hUnmarshal(data []byte, v interface{}) error {
 	s := string(data)
 	if !strings.HasPrefix(s, `{"tag":"`) || !strings.HasSuffix(s, `"}`) {
 		return errors.New("jsoniter: syntax error")
